@@ -30,9 +30,14 @@ def table(name, shape):
     return AT(ax, d)
 
 
-def check_obs_gather(G, eq_keys=('nu', 'th')):
-    """input, value and every observed parameter of a batch are gathered with the SAME mini-batch of row indices"""
-    gen = G.obs(eq_keys=eq_keys)
+def check_obs_gather(G, eq_keys=('nu', 'th'), suffix=''):
+    """input, value and every observed parameter of a batch are gathered with the SAME mini-batch of row indices
+    (suffix: other tables under the same sizes and names - a second loader in the same process)"""
+    if suffix:
+        gen = G.obs(eq_keys=eq_keys, observed_pinn_in=Sym('obs_in' + suffix), observed_values=Sym('obs_val' + suffix),
+                    observed_eq_params={k: Sym(f'obs_{k}{suffix}') for k in eq_keys})
+    else:
+        gen = G.obs(eq_keys=eq_keys)
     new, batch = freeze(gen).obs_batch()
     pred, k2, s2, i2 = spec_step(gen.fields['key'], gen.fields['indices'], gen.fields['curr_idx'], K('bo'), K('n_obs'), None)
     mb = Sym('dynamic_slice', fz(s2), (fz(i2),), (fz(K('bo')),))
@@ -41,12 +46,12 @@ def check_obs_gather(G, eq_keys=('nu', 'th')):
     from .C09 import wild_keys
     mb = wild_keys(mb)
     g_ = lambda v: wild_keys(fz(v))
-    expect_same(g_(batch["pinn_in"]), Sym('gather', Sym('obs_in'), mb), "batch['pinn_in']")
-    expect_same(g_(batch["val"]), Sym('gather', Sym('obs_val'), mb), "batch['val']")
+    expect_same(g_(batch["pinn_in"]), Sym('gather', Sym('obs_in' + suffix), mb), "batch['pinn_in']")
+    expect_same(g_(batch["val"]), Sym('gather', Sym('obs_val' + suffix), mb), "batch['val']")
     if set(batch["eq_params"].keys()) != {'nu', 'th'}:
         raise Violation("eq_params keys", str(sorted(batch['eq_params'].keys())), "['nu', 'th']")
     for k in ('nu', 'th'):
-        expect_same(g_(batch["eq_params"][k]), Sym('gather', Sym(f'obs_{k}'), mb), f"batch['eq_params'][{k!r}]")
+        expect_same(g_(batch["eq_params"][k]), Sym('gather', Sym(f'obs_{k}{suffix}'), mb), f"batch['eq_params'][{k!r}]")
     return "pinn_in, val and every observed parameter gathered with the same mini-batch of indices on axis 0"
 
 
@@ -65,6 +70,11 @@ def run(chk):
     # observed parameters given in a non-alphabetical order: each keeps its own table (pytree flattening sorts the keys)
     chk.run("C15.R1", f"{MOD}:DataGeneratorObservations.obs_batch", {"observed_eq_params_order": ["th", "nu"]},
             (lambda: check_obs_gather(G, ('th', 'nu'))), construct="aligned gather")
+
+    # a second loader with the same sizes and the same parameter names but other tables, later in the same process: its batches
+    # come from ITS tables (nothing remembered per size / per name from an earlier loader)
+    chk.run("C15.R1", f"{MOD}:DataGeneratorObservations.obs_batch", {"second_loader": "same sizes and names, other tables"},
+            (lambda: check_obs_gather(G, suffix='_second')), construct="aligned gather (second loader)")
 
     # ---------------- R1 constructor
     for sharding in (None, 'device'):
